@@ -28,7 +28,17 @@ def feed(stuffing, abort, stream, cuts):
 def check_frame_predicates(fr, idx):
     """(a) validity both directions, (b) exact fields for a valid frame. Returns (valid, fcs_ok, len_ok, fields)."""
     b = guarded(lambda: fr.as_bytes, what="as_bytes")
+    # the verdict must not depend on which accessors were used before (order chosen from the frame itself, deterministically)
+    order = (len(b) + idx) % 4
+    if order == 1:
+        guarded(lambda: (fr.payload, fr.frame_check_sequence, fr.header.control), what="accessors")
+    elif order == 2:
+        guarded(lambda: (fr.header.destination_address, fr.header.source_address, fr.header.header_check_sequence, fr.is_good_ffc, fr.is_expected_length), what="accessors")
+    elif order == 3:
+        guarded(lambda: (fr.is_valid, fr.message_type, len(fr)), what="accessors")
     valid = guarded(lambda: fr.is_valid, what="is_valid")
+    if guarded(lambda: fr.is_valid, what="is_valid") is not valid or guarded(lambda: fr.as_bytes) != b:
+        fail(f"frame #{idx} {b.hex()}: is_valid / as_bytes change between two reads", sig="unstable")
     want = ref_valid(b)
     fcs_ok = len(b) >= 2 and fcs16_octets(b[:-2]) == b[-2:]
     len_ok = len(b) >= 2 and (((b[0] << 8) | b[1]) & 0x7FF) == len(b)
@@ -143,6 +153,7 @@ def build() -> Check:
         ),
         assumptions=[
             "Validity reference = bit-serial FCS-16 + length field, vlib/ref_hdlc.py; no reference reader: C01 does not say which frames are returned.",
+            "Before is_valid is read, a deterministic choice of other accessors is used (none / payload+FCS+control / addresses+HCS+flags / is_valid itself): the verdict must not depend on access order.",
             "Field accessors compared only when the reference can parse address+control+check sequence; payload not compared when exactly one octet follows the HCS position (HCS/FCS would overlap).",
             "A trailing lone escape octet before a flag un-stuffs to nothing (unstuff() in the reference).",
         ],
